@@ -158,7 +158,7 @@ func c04Run(in c04In) c04Out {
 	w.Mu.Lock()
 	out.Before = map[string]vk.Node{}
 	for h, n := range w.Nodes {
-		out.Before[h] = *n
+		out.Before[h] = n.Snapshot()
 	}
 	w.Mu.Unlock()
 	w.ResetTranscript()
